@@ -245,7 +245,8 @@ def gen_call(rnd, f):
             a["n"] = -1 if (b["A"]["nr"] == b["A"]["nc"] == n and rnd.random() < 0.7) else n
             if rnd.random() < 0.03:
                 a["n"] = -1
-            set_units_tri(b["A"], a, n, "ldA", "offsetA")
+            # (the diagonal that the call will actually use: with an omitted n that is the whole of A)
+            set_units_tri(b["A"], a, max(n, b["A"]["nr"]) if a["n"] == -1 else n, "ldA", "offsetA")
         b["x"] = buf(rnd, tc, need_vec(a["offsetx"], a["incx"] or 1, n))
     elif f in RK:
         gen = f in ("ger", "geru")
